@@ -643,7 +643,7 @@ def primes_everywhere(arch):
     return arch
 
 
-def mini_metrics_yaml(loop, isect, style, ro, lead="A", levels=None, names=("A", "B")):
+def mini_metrics_yaml(loop, isect, style, ro, lead="A", levels=None, names=("A", "B"), base=None, iranks=None):
     """a small accelerator around Z[m,n] = A[k,m] * B[k,n]; tensor ranks as iterated (loop order, partition levels)"""
     levels = levels or {}
 
@@ -658,7 +658,8 @@ def mini_metrics_yaml(loop, isect, style, ro, lead="A", levels=None, names=("A",
         for r in ranks:
             y += "      %s:\n        format: C\n        cbits: 32\n        pbits: 64\n" % r
         return y
-    ranks = {"A": iterated(ro.get("A", ["K", "M"])), "B": iterated(ro.get("B", ["K", "N"])), "Z": iterated(ro.get("Z", ["M", "N"]))}
+    base = base or {"A": ["K", "M"], "B": ["K", "N"], "Z": ["M", "N"]}
+    ranks = {t: iterated(ro.get(t, base[t])) for t in ("A", "B", "Z")}
     nA, nB = names
     y = "format:\n" + fmt(nA, ranks["A"]) + fmt(nB, ranks["B"]) + fmt("Z", ranks["Z"])
     y += ("architecture:\n  Acc:\n  - name: System\n    attributes:\n      clock_frequency: 101\n    local:\n"
@@ -686,10 +687,14 @@ def mini_metrics_yaml(loop, isect, style, ro, lead="A", levels=None, names=("A",
         ev = "      evict-on: %s\n      style: eager\n" % loop[0]
         y += mem(nA, ranks["A"][-1:], ev, ("coord",)) + mem("Z", ranks["Z"][-1:], ev, ("coord",))
     if isect:
-        krank = [r for r in loop if r.startswith("K")][-1]
-        y += "  - component: Isect\n    bindings:\n    - rank: %s\n" % krank
-        if isect == "leader-follower":
-            y += "      leader: %s\n" % (nA if lead == "A" else nB)
+        if iranks is None:
+            iranks = [[r for r in loop if r.startswith("K")][-1]]
+        y += "  - component: Isect\n    bindings:\n"
+        for j, r in enumerate(iranks):
+            y += "    - rank: %s\n" % r
+            if isect == "leader-follower":
+                ld = lead if j % 2 == 0 else ("B" if lead == "A" else "A")
+                y += "      leader: %s\n" % (nA if ld == "A" else nB)
     y += "  - component: Mul\n    bindings:\n    - op: mul\n  - component: Add\n    bindings:\n    - op: add\n"
     return y
 
@@ -785,6 +790,27 @@ def f_metrics(tier="quick", seed=0):
                               "extents": {"K": 3, "M": 2, "N": 2}, "sizes": {}, "arch": secs["architecture"], "bindings": secs["bindings"],
                               "format": secs["format"],
                               "tags": {"family": "metrics", "template": "mini-names", "legal": True, "leader_first": lead == "A"}})
+    # intersector bound to a rank created by an occupancy split; one intersector bound to two ranks
+    for isect in ("two-finger", "skip-ahead", "leader-follower"):
+        for lo, ir in ((["M", "K1", "N", "K0"], ["K0"]), (["K1", "M", "N", "K0"], ["K1"]), (["K1", "M", "K0", "N"], ["K1", "K0"])):
+            y = mini_metrics_yaml(lo, isect, "lazy", {}, "A", {"K": ["K1", "K0"]}, iranks=ir)
+            secs = S.split_sections(y)
+            specs.append({"name": "metrics/mini-occ/lo=%s/%s/isect=%s" % (",".join(lo), isect, "+".join(ir)), "decl": decl, "exprs": exprs,
+                          "mapping": {"partitioning": {"Z": {"K": ["uniform_occupancy(A.2)"]}}, "loop-order": {"Z": lo},
+                                      "spacetime": {"Z": {"space": [], "time": lo}}},
+                          "extents": {"K": 3, "M": 2, "N": 2}, "sizes": {}, "arch": secs["architecture"], "bindings": secs["bindings"],
+                          "format": secs["format"], "tags": {"family": "metrics", "template": "mini-occ", "leader_first": True}})
+        d3 = {"A": ["M", "N"], "B": ["M", "N"], "Z": ["M", "N"]}
+        for lo in (["M", "N"], ["N", "M"]):
+            for lead in ("A", "B"):
+                y = mini_metrics_yaml(lo, isect, "lazy", {}, lead, None, base=d3, iranks=list(lo))
+                secs = S.split_sections(y)
+                specs.append({"name": "metrics/mini-elem/lo=%s/%s/lead=%s" % ("".join(lo), isect, lead), "decl": d3,
+                              "exprs": ["Z[m, n] = A[m, n] * B[m, n]"],
+                              "mapping": {"loop-order": {"Z": lo}, "spacetime": {"Z": {"space": [], "time": lo}}},
+                              "extents": {"M": 2, "N": 3}, "sizes": {}, "arch": secs["architecture"], "bindings": secs["bindings"],
+                              "format": secs["format"],
+                              "tags": {"family": "metrics", "template": "mini-elem", "leader_first": not (isect == "leader-follower")}})
     # partitioned variant (explicit shapes with interleaved levels)
     for lo in (["M1", "N", "K", "M0"], ["N", "M1", "M0", "K"], ["K", "M1", "N", "M0"]):
         for isect in (None, "two-finger", "leader-follower"):
